@@ -42,6 +42,47 @@ CHECKS["C05"] = {
     "technique": "Coq proof by induction over the attribute list + differential correspondence on API programs",
 }
 
+CHECKS["C18"] = {
+    "text": "Proof (Coq): the identifier map and the record list are separate fields of the model; their agreement "
+            "(Coherent) is proved to be an invariant of every API call of the interpreter (all insertion paths) and hence "
+            "of every reachable world (induction over the program); get_record is proved to return the scan of the record "
+            "list for the URI the argument denotes, get_records the instances of the class (generated hierarchy). Tie: "
+            "model vs implementation on API programs with records and _id_map compared after every call; direct oracle: "
+            "get_record in every spelling / absent id / get_records for every class / records-is-a-copy on a deep copy "
+            "after every mutating call.",
+    "design_ref": "DESIGN.md §5 C18, §10",
+    "technique": "Coq invariant proof over the API interpreter + differential correspondence",
+}
+CHECKS["C12"] = {
+    "text": "Proof (Coq) on the value-level model: a call changes at most its target document (frame theorem over all "
+            "21 operations, any outcome), deriving calls only append documents, and any call sequence that does not target d "
+            "leaves d unchanged. The model cannot alias by construction, so the half of the property that is about Python "
+            "object sharing is established by the tie: model vs implementation observations of every document after every "
+            "call (derive, then mutate either side), plus a direct frame/identity oracle on the implementation (partial: "
+            "proof on the model + correspondence).",
+    "design_ref": "DESIGN.md §5 C12, §10",
+    "technique": "Coq frame theorem over the API interpreter + differential correspondence and object-identity oracle",
+}
+CHECKS["C09"] = {
+    "text": "Proof (Coq): re-creation of a record in a target scope keeps kind and identifier URI under any prefix/default "
+            "clash (uses the C03a URI invariant), appends and touches nothing else; flattened() returns a bundle-free new "
+            "document with exactly the summed number of records; update leaves the other document unchanged (frame); every "
+            "add_bundle refusal leaves the world unchanged and the documented refusals do raise. Not yet proved: equality of "
+            "the re-created attribute multiset (stated as C09_full_statement) — covered by the correspondence run and the "
+            "strict-multiset oracle on the implementation (partial).",
+    "design_ref": "DESIGN.md §5 C09, §10",
+    "technique": "Coq proofs over add_record / interpreter steps + differential correspondence and multiset oracle",
+}
+CHECKS["C08"] = {
+    "text": "Proof (Coq): unified() leaves every existing document unchanged (frame), returns a new document, and is the "
+            "identity when no two records share kind and identifier; merge and conflict behaviour are computed Examples. "
+            "The full merge specification (C08_spec_statement) is not yet proved: it is decided per run by the correspondence "
+            "(model vs implementation on identifier-reuse programs) and an independent merge-specification oracle on the "
+            "implementation, incl. idempotence and source-unchanged (partial). Known finding C08-F1 (Membership).",
+    "design_ref": "DESIGN.md §5 C08, §10",
+    "technique": "Coq proofs (frame, identity case) + differential correspondence and independent merge oracle",
+}
+
 NOT_YET = {}
 
 
